@@ -99,7 +99,7 @@ impl<T> vstd::std_specs::core::IndexSpecImpl<TermIndex> for TermVec<T> {
 //@end
 //@struct TBL LRState fields=grammar,max_prior_for_term,actions
 //@end
-//@struct TBL LRItem fields=prod_len
+//@struct TBL LRItem fields=prod,prod_len,position
 //@end
 //@struct TBL LRTable fields=grammar,settings
 //@end
@@ -309,10 +309,6 @@ proof fn lemma_resolve_keeps_cell_wf(g: &Grammar, s: &Settings, mp: Map<TermInde
 //@  |             final(actions)@ == resolve(self.grammar, self.settings, state.max_prior_for_term@, item, prod, follow_term, old(actions)@, new_reduce), // [C05, C02]
 //@include conflict_annotations.inc
 //@end
-//@xexprfn xexpr_partition
-//@  | fn xexpr_partition(actions: &Vec<Action>) -> (r: (Vec<Action>, Vec<Action>))
-//@  |     ensures r.0@ == actions@.filter(p_sa()), r.1@ == actions@.filter(p_not_sa()),
-//@end
 
 // ---- C01: REDUCE placement -- every lookahead of a reducing item gets the reduction -----------------------------------------
 // R-LIFT reduce_block: the statement `for follow_symbol in item.follow.borrow().iter() { .. }` of calculate_reductions,
@@ -348,16 +344,16 @@ spec fn reduce_pre(g: &Grammar, st: &LRState, item: &LRItem) -> bool {
 //@  fn reduce_block allclosures attr=verifier::loop_isolation(false)
 //@  |         requires
 //@  |             reduce_pre(self.grammar, old(state), item),
-//@  |             new_reduce is Reduce,
 //@  |         ensures
 //@  |             final(state).actions.0@.len() == old(state).actions.0@.len(),
 //@  |             final(state).max_prior_for_term == old(state).max_prior_for_term,
 //@  |             // [C01] REDUCE entries sit exactly on the item's lookaheads: the cell of every terminal in the follow set is the old
-//@  |             // cell with the reduction registered (directly if it was empty, through conflict resolution otherwise); every other
-//@  |             // cell is untouched
+//@  |             // cell with Reduce(item.prod, item.position) registered (directly if it was empty, through conflict resolution
+//@  |             // otherwise); every other cell is untouched
 //@  |             forall|t: int| 0 <= t < old(state).actions.0@.len() ==> (#[trigger] final(state).actions.0@[t])@ ==
 //@  |                 (if follow_of(item).contains(SymbolIndex(t as usize)) {
-//@  |                     cell_after(self.grammar, self.settings, old(state).max_prior_for_term@, item, prod, &self.grammar.terminals.0@[t], old(state).actions.0@[t]@, new_reduce)
+//@  |                     cell_after(self.grammar, self.settings, old(state).max_prior_for_term@, item, prod, &self.grammar.terminals.0@[t], old(state).actions.0@[t]@,
+//@  |                         Action::Reduce(item.prod, item.position))
 //@  |                 } else { old(state).actions.0@[t]@ }), // [C01, C05]
 //@  before 1 "for follow_symbol in"
 //@  |                 let ghost a0 = state.actions.0@;
@@ -372,6 +368,7 @@ spec fn reduce_pre(g: &Grammar, st: &LRState, item: &LRItem) -> bool {
 //@  |                         state.actions.0@.len() == a0.len(),
 //@  |                         state.max_prior_for_term@ == mp0,
 //@  |                         state.max_prior_for_term == old(state).max_prior_for_term,
+//@  |                         new_reduce == Action::Reduce(item.prod, item.position),
 //@  |                         done == fit.seq().take(fit.index()).unref().to_set(),
 //@  |                         fit.index() == fit.seq().len() ==> done == follow_of(item),
 //@  |                         forall|t: int| 0 <= t < a0.len() ==> (#[trigger] state.actions.0@[t])@ ==
@@ -416,6 +413,11 @@ spec fn reduce_pre(g: &Grammar, st: &LRState, item: &LRItem) -> bool {
 //@xexprfn xexpr_follow_iter nobody
 //@  | fn xexpr_follow_iter<'a>(item: &'a LRItem) -> (r: BTreeSetIter<'a, SymbolIndex>)
 //@  |     ensures r.remaining().unref().to_set() == follow_of(item), r.remaining().no_duplicates(), r.decrease() is Some,
+//@end
+
+//@xexprfn xexpr_partition
+//@  | fn xexpr_partition(actions: &Vec<Action>) -> (r: (Vec<Action>, Vec<Action>))
+//@  |     ensures r.0@ == actions@.filter(p_sa()), r.1@ == actions@.filter(p_not_sa()),
 //@end
 
 } // verus!
